@@ -1023,8 +1023,12 @@ pub fn c11_length_near_u64_max() -> R {
                                     let _ = s.write(&[1u8; 4096]);
                                 }
                                 4 => {
-                                    let _ = s.set_len(len);
-                                    let _ = s.set_len(len.wrapping_add(1));
+                                    // lengths a version 4 file can really hold (4 GiB ...) would be
+                                    // allocated for real: only the unrepresentable ones are asked for
+                                    if len > (1u64 << 45) {
+                                        let _ = s.set_len(len);
+                                        let _ = s.set_len(len.wrapping_add(1));
+                                    }
                                     let _ = s.set_len(10);
                                 }
                                 5 => {
